@@ -15,49 +15,60 @@ def oracles_():
 
 
 TRUSTED = [
-    "impl/t_yl.c generates the YANG texts of the abstract module records and serves them through the import callback; "
-    "its callback serves the latest revision for an import without revision-date (as a search directory does)",
+    "impl/t_yl.c generates the YANG texts of the abstract module records (features, submodule graphs, imports with augment / "
+    "deviation statements, groupings wrapping the groupings of the imports) and serves them through the import callback or a "
+    "temporary search directory; both serve the latest revision for a request without revision",
+    "tools/props/comps_yl.py: generators, the judges of the API oracles and a Python mirror of YangLib.includes_order that is only "
+    "used to generate loadable submodule graphs",
 ]
 ASSUMPTIONS = [
-    "the round-trip theorem assumes imports_pinned (an import without revision-date names a module with one revision in the "
-    "sources) and covers module loading, implementing and feature setting only; compilation is compared on the "
-    "implementation (LYS_OUT_YANG_COMPILED print of every implemented module), not modelled",
+    "C19_yanglib_roundtrip and C19_describe_rebuild_describe assume rt_ok: one record per (name, revision); every module text in the "
+    "sources; every import means a module of the context with decreasing import depth; an import or load request without revision "
+    "names a module with a single revision in context and sources (imports_pinned); one implemented revision per name; distinct "
+    "feature names per module; non-implemented modules have no enabled feature and are internal or reachable from an implemented "
+    "module; augment / deviation statements go through imports and their targets are implemented in the original; the rebuilding "
+    "context holds only modules of the original (implemented ones in any feature state)",
+    "the hash theorems on the byte stream assume non-empty names, revisions and feature names (wf_mod); the submodule theorems "
+    "assume wf_incs (includes name existing submodules, no self-include) and distinct includes of the module",
+    "compilation is not modelled: equality of compiled schemas is compared on the implementation only (LYS_OUT_YANG_COMPILED "
+    "print of every implemented module)",
 ]
 
 MANIFEST = {
-    "text": "Coq (Properties_C19_yl.v): ModHash.v transcribes ly_ctx_get_modules_hash() with lysp_feature_next() (index reset "
-            "per module since /repo c8adb05); modhash never runs out of fuel and equals the one-at-a-time hash of the "
-            "concatenated strings; equal ordered observables give equal hashes; name, revision, implemented byte and every "
-            "enabled feature of every module change the byte stream (C19_modhash_stream_reads_every_feature, unconditional; "
-            "the former refutation witness is a regression example: 2926982747 vs 2169919692); the stream is not injective "
-            "(witnesses 2151593976, 3673482515, finding yl-hash-concat) while the NUL-delimited encoding is; the uint16_t "
-            "counter differs after 1..65535 events and wraps after 65536; YangLib.v: describe/rebuild with the round-trip "
-            "theorem under imports_pinned. Tie: extracted model vs ly_ctx_get_modules_hash on generated contexts (records "
-            "read back from the context), yang-library entries and rebuilt contexts vs describe/rebuild; oracles on the API "
-            "for hash sensitivity, change counter (also under LY_CTX_EXPLICIT_COMPILE, fixed in d4e18d7) and round trip; the "
-            "round trip also runs into populated contexts (T2 with YangLib.preload; the theorem's c0 may hold implemented modules in "
-            "any feature state; the features argument NULL / * / array is modelled) and, as oracle yl-variants, with every option "
-            "of the rebuilding context, callback / search directory sources, yldata / ylmem / ylpath in JSON and XML, *ctx NULL or "
-            "existing, augment / deviation / import dependencies and if-feature dependent features. Submodule graphs (YANG 1.0 "
-            "injected includes, chains, diamonds, includes between submodules in 1.1): YangLib.includes_order transcribes "
-            "lysp_load_submodules (as of /repo 272016c), tied by T2 through the feature array order read back from the context; "
-            "C19_includes_array_is_closure and C19_description_lists_closure_features: the description lists exactly the enabled "
-            "features of the module and of the submodules of its include closure, each once (the former refutation witness is a "
-            "regression example); the oracle compares "
-            "the described features / submodules with lys_feature_value over all features and the includes of the context. "
-            "Every generated module exports a grouping whose leaves depend on its features and that wraps the groupings of its "
-            "imports, so compiled trees depend on features reached through import-only modules; yl-variants also changes features "
-            "AFTER the loads (lys_set_implemented on / off / on-then-off) before describing and rebuilding. The description model "
-            "also holds the submodule entries (name, revision; C19_description_lists_closure_submodules: every submodule of the "
-            "include closure exactly once) and the deviation leaf-list (C19_description_deviation_list: exactly the implemented "
-            "modules that deviate the module); loading implements augment / deviation targets (implement_targets), tied by the "
-            "ylrt correspondence; the round-trip theorem covers augment / deviation statements (targets implemented in the "
-            "original); C19_describe_rebuild_describe: describe o rebuild o describe = describe on the modelled part (same "
-            "import-only entries, module entries equal with the system-ordered deviation list as a set).",
-    "note": "Not modelled: compilation, location leaves, datastore list, search directories, "
-            "LY_CTX_ALL_IMPLEMENTED/REF_IMPLEMENTED, the revision-less import logic beyond the unambiguous case, the exact "
-            "number of counter events per operation. Known findings: yl-hash-concat, yl-import-only-rev, yl-augment-order; fixed: "
-            "yl-sub-include-skipped (272016c), yl-hash-fi "
-            "(c8adb05), yl-cc-explicit-compile (d4e18d7).",
+    "text": "Coq (Properties_C19_yl.v, all closed under the global context). ModHash.v transcribes ly_ctx_get_modules_hash() with "
+            "lysp_feature_next() (as of /repo c8adb05): C19_modhash_is_hash_of_chunks / _of_stream (no fuel exhaustion; for wf_mod "
+            "modules the value is the one-at-a-time hash of the concatenated strings), C19_modhash_congruent(_obs) (equal ordered "
+            "observables give equal hashes), C19_modhash_stream_reads_name_rev_impl and C19_modhash_stream_reads_every_feature "
+            "(changing name, revision, implemented byte or one enabled feature of any module changes the byte stream; a statement "
+            "about the stream, not about hash collisions; regression Example C19_former_fi_witness), "
+            "C19_modhash_stream_injective_refuted / C19_modhash_name_revision_boundary_refuted (strings are fed without "
+            "separators: finding yl-hash-concat) and C19_spec_stream_injective (the NUL-delimited encoding is injective). Counter "
+            "(uint16_t): C19_change_count_differs / _consecutive (differs after 1..65535 events), C19_change_count_strict_refuted "
+            "(wraps after 65536). YangLib.v transcribes ly_ctx_get_yanglib_data (module / import-only-module entries with name, "
+            "revision, namespace, features, deviations, submodules), ly_ctx_new_yldata, ly_ctx_load_module (lys_parse_load, import "
+            "resolution, _lys_set_implemented / lys_set_features with NULL / * / array, implementing augment and deviation "
+            "targets) and lysp_load_submodules (as of /repo 272016c): C19_describe_tells_obs, C19_includes_array_is_closure, "
+            "C19_description_lists_closure_features, C19_description_lists_closure_submodules, C19_description_submodule_entries "
+            "(enabled features and submodules of the include closure each exactly once; regression Examples "
+            "C19_former_sub_skip_witness, C19_includes_order_examples), C19_description_deviation_list (exactly the implemented "
+            "modules that deviate the module), C19_yanglib_roundtrip (under rt_ok the rebuilt context has exactly the records of "
+            "the original, as a set; also into a populated context) with C19_roundtrip_needs_imports_pinned, "
+            "C19_describe_rebuild_describe (same import-only entries, module entries equal with the deviation list as a set), "
+            "Examples C19_hypotheses_satisfiable, C19_roundtrip_into_populated_context, C19_roundtrip_hypotheses_with_deviation, "
+            "C19_deviation_roundtrip_computed, C19_unpinned_import_is_unmodelled. Tie (T2, extracted model vs C on generated "
+            "module sets): records read back from the context + ly_ctx_get_modules_hash (feature array order = includes_order), "
+            "the uint16_t field, yang-library entries of the re-parsed data and the records of the context rebuilt by "
+            "ly_ctx_new_ylmem (also into populated contexts, with augment / deviation dependencies). Oracle level only (API, no "
+            "model): hash sensitivity, change counter after every changing operation (also LY_CTX_EXPLICIT_COMPILE), and the "
+            "round trip in all variants (options of the rebuilding context, callback / search directory, yldata / ylmem / ylpath "
+            "in JSON and XML, new or existing context, feature changes after the loads, dependencies through import-only "
+            "modules) with equal compiled prints, described features = lys_feature_value, described submodules = includes.",
+    "note": "Modelled rather than verified: the C functions above are hand-transcribed into Gallina and tied by differential "
+            "runs only. Not modelled: compilation (schema equality and node order are implementation-level comparisons), location "
+            "leaves, datastore list, legacy modules-state list, search directory lookup, LY_CTX_ALL_IMPLEMENTED / REF_IMPLEMENTED / "
+            "ENABLE_IMP_FEATURES, imports without revision-date when several revisions are in play (model answers E_UNMODELLED), "
+            "the number of counter events per operation, if-feature dependencies between features. Known findings: yl-hash-concat, "
+            "yl-import-only-rev, yl-augment-order. Fixed: yl-hash-fi (c8adb05), yl-cc-explicit-compile (d4e18d7), "
+            "yl-sub-include-skipped (272016c).",
     "technique": "Coq proof over hand-written model + differential correspondence (extracted OCaml vs C) + API oracles",
 }
